@@ -53,6 +53,8 @@ type Conn struct {
 	closed   bool
 	nReads   int
 	nWrites  int
+	holdW   int
+	holdCh  chan struct{}
 	blockedW int // writers currently blocked on capacity
 	blockedR int
 }
@@ -124,6 +126,30 @@ func (c *Conn) Read(p []byte) (int, error) {
 
 // Write implements net.Conn.  Bytes are accepted in order as capacity allows;
 // the call returns when all of p was accepted or the connection failed.
+// HoldWrites makes the n-th Write call from now (and later ones) block AFTER
+// its bytes have become visible to the remote side, until ReleaseWrites is
+// called: a writer that has not returned yet although the remote already
+// reacts to what it wrote.
+func (c *Conn) HoldWrites(n int) {
+	c.mu.Lock()
+	c.holdW = n
+	if c.holdCh == nil {
+		c.holdCh = make(chan struct{})
+	}
+	c.mu.Unlock()
+}
+
+// ReleaseWrites lets held Write calls return.
+func (c *Conn) ReleaseWrites() {
+	c.mu.Lock()
+	if c.holdCh != nil {
+		close(c.holdCh)
+		c.holdCh = nil
+	}
+	c.holdW = 0
+	c.mu.Unlock()
+}
+
 func (c *Conn) Write(p []byte) (int, error) {
 	done := 0
 	for {
@@ -150,6 +176,17 @@ func (c *Conn) Write(p []byte) (int, error) {
 		}
 		if done == len(p) {
 			c.nWrites++
+			if c.holdW > 0 {
+				c.holdW--
+			}
+			if c.holdW == 0 && c.holdCh != nil {
+				// the bytes are on the wire (visible to the remote) but the
+				// call has not returned to the writer yet
+				ch := c.holdCh
+				c.mu.Unlock()
+				<-ch
+				return done, nil
+			}
 			c.mu.Unlock()
 			return done, nil
 		}
